@@ -4,8 +4,8 @@ import DoraModel.Alloc.Lemmas
 
 The arithmetic core of the property: for EVERY 64-bit length and every element size the baseline
 generator's size computation either refuses (overflow trap) or yields exactly the intended, non-wrapped
-size. The same statement for the optimizing generator holds only for non-negative lengths (its lowering
-has no sign check) — kept as `…_partial`, with the failing witness as a theorem (known finding).
+size. The same statement is proved for the optimizing generator (checked arithmetic + sign check). Both
+generators lacked part of this before the fixes; the old behaviour is kept as the `…_unchecked_…` witnesses.
 Stack exhaustion and the allocation ladder are explored by generated programs (checks/c13.py), not proved.
 -/
 namespace Dora.Alloc.C13
@@ -75,13 +75,18 @@ theorem negative_is_beyond_bound (len : BitVec 64) (es : Nat) (hneg : len.toInt 
 theorem cannon_unchecked_wraps :
     cannonOutcome false (BitVec.ofNat 64 2305843009213693953) 8 = some 24#64 := by decide
 
-/-- Optimizing generator, non-negative lengths: refused or exact. -/
-theorem boots_exact_or_refused_partial (len : Int) (es : Nat) (hes : 0 < es) (h0 : 0 ≤ len) (hl : len < 2 ^ 63) :
-    bootsOutcome len es = .trap ∨
-    (bootsOutcome len es = .size (intendedSize len.toNat es : Int) ∧ (intendedSize len.toNat es : Int) < 2 ^ 63) := by
+/-- Optimizing generator, non-negative lengths: refused or exact (with or without the sign check). -/
+theorem boots_exact_or_refused_nonneg (sc : Bool) (len : Int) (es : Nat) (hes : 0 < es) (h0 : 0 ≤ len) (hl : len < 2 ^ 63) :
+    bootsOutcome sc len es = .trap ∨
+    (bootsOutcome sc len es = .size (intendedSize len.toNat es : Int) ∧ (intendedSize len.toNat es : Int) < 2 ^ 63) := by
   obtain ⟨n, rfl⟩ := Int.eq_ofNat_of_zero_le h0
   simp only [Int.toNat_natCast]
   unfold bootsOutcome
+  have hsc : (sc && !inI64 ((n : Int) + (-(2 ^ 63 : Int)))) = false := by
+    have : inI64 ((n : Int) + (-(2 ^ 63 : Int))) = true := by
+      simp only [inI64, Bool.and_eq_true, decide_eq_true_eq]; omega
+    rw [this]; cases sc <;> rfl
+  simp only [hsc, Bool.false_eq_true, if_false]
   by_cases h1 : inI64 ((n : Int) * (es : Int)) = true
   · by_cases h2 : inI64 ((n : Int) * (es : Int) + (arrayHeader : Int)) = true
     · simp only [h1, h2, Bool.not_true, Bool.false_eq_true, if_false]
@@ -118,14 +123,34 @@ theorem boots_exact_or_refused_partial (len : Int) (es : Nat) (hes : 0 < es) (h0
     · left; simp [h1, h2]
   · left; simp [h1]
 
-/-- The full statement is FALSE for the optimizing generator: a negative length is not refused
-(`Array[UInt8]::zero(-1)` is given a 16-byte object of length −1; `Array[Int64]::zero(-1)` an 8-byte one,
-smaller than its own header). Known finding. -/
-theorem boots_negative_not_refused :
-    bootsOutcome (-1) 1 = .size 16 ∧ bootsOutcome (-1) 8 = .size 8 := by decide
+/-- Optimizing generator with its sign check: every negative length is refused. -/
+theorem boots_refuses_negative (len : Int) (es : Nat) (hneg : len < 0) (hl : -(2 ^ 63 : Int) ≤ len) :
+    bootsOutcome true len es = .trap := by
+  unfold bootsOutcome
+  have : inI64 (len + (-(2 ^ 63 : Int))) = false := by
+    simp only [inI64, Bool.and_eq_false_iff, decide_eq_false_iff_not]; left; omega
+  rw [this]; rfl
+
+/-- Hence, for EVERY Int64 length: refused, or non-negative with the exact size. -/
+theorem boots_exact_or_refused (len : Int) (es : Nat) (hes : 0 < es) (h1 : -(2 ^ 63 : Int) ≤ len) (h2 : len < 2 ^ 63) :
+    bootsOutcome true len es = .trap ∨
+    (0 ≤ len ∧ bootsOutcome true len es = .size (intendedSize len.toNat es : Int) ∧
+      (intendedSize len.toNat es : Int) < 2 ^ 63) := by
+  by_cases h0 : 0 ≤ len
+  · rcases boots_exact_or_refused_nonneg true len es hes h0 h2 with h | h
+    · exact Or.inl h
+    · exact Or.inr ⟨h0, h⟩
+  · exact Or.inl (boots_refuses_negative len es (by omega) h1)
+
+/-- Without the sign check the statement was false: the witness of the defect that was fixed
+(`Array[UInt8]::zero(-1)` got a 16-byte object of length −1; `Array[Int64]::zero(-1)` an 8-byte one,
+smaller than its own header). -/
+theorem boots_unchecked_negative_not_refused :
+    bootsOutcome false (-1) 1 = .size 16 ∧ bootsOutcome false (-1) 8 = .size 8 := by decide
 
 example : cannonOutcome true (BitVec.ofNat 64 1000) 4 = some 4016#64 := by decide
 example : cannonOutcome true (BitVec.ofInt 64 (-1)) 8 = none := by decide
-example : bootsOutcome 2305843009213693953 8 = .trap := by decide
+example : bootsOutcome true 2305843009213693953 8 = .trap := by decide
+example : bootsOutcome true (-1) 8 = .trap := by decide
 
 end Dora.Alloc.C13
